@@ -207,12 +207,13 @@ def big_terrain(rng, H, W):
     return kind, t
 
 
-def big_jobs(rng, nterr):
-    """larger rasters: the status structure holds 15-30 cells, deletions of inner two-child nodes and
-    rotations with non-trivial subtrees happen in every sweep"""
+def big_jobs(rng, nterr, sizes=BIG_SIZES):
+    """larger rasters: the status structure holds 15-40 cells, deletions of inner two-child nodes and
+    rotations with non-trivial subtrees happen in every sweep (stale maxima two or more levels up only
+    reach the output on such trees)"""
     jobs = []
     for i in range(nterr):
-        H, W = rng.choice(BIG_SIZES)
+        H, W = rng.choice(sizes)
         kind, terr = big_terrain(rng, H, W)
         for _ in range(2):
             vr, vc = rng.randrange(H), rng.randrange(W)
@@ -410,11 +411,12 @@ def run(ctx):
                   for H in range(2, mx + 1) for W in range(2, mx + 1) for vr in range(H) for vc in range(W)]
     if not thorough:
         table_jobs += [{"kind": "tables", "H": 7, "W": 7, "vr": vr, "vc": vc} for vr in range(7) for vc in range(7)]
-    tree_jobs = perm_jobs(rng, 4) + perm_jobs(rng, 5, limit=ctx.pick(300, 14400))
+    tree_jobs = perm_jobs(rng, 4) + perm_jobs(rng, 5, limit=ctx.pick(200, 14400))
     if thorough:
         tree_jobs += perm_jobs(rng, 6, limit=4000)
-    tree_jobs += sim_jobs(ctx, rng, ctx.pick(100, 1500), ctx.pick(40, 60), 12)
-    comp_jobs = los_jobs(rng, ctx.pick(12, 160), steps=False) + big_jobs(rng, ctx.pick(60, 800))
+    tree_jobs += sim_jobs(ctx, rng, ctx.pick(80, 1500), ctx.pick(40, 60), 12)
+    comp_jobs = los_jobs(rng, ctx.pick(12, 160), steps=False) + big_jobs(rng, ctx.pick(50, 800)) + \
+        big_jobs(rng, ctx.pick(10, 150), sizes=[(17, 17), (21, 21)])
     interp_jobs = los_jobs(rng, ctx.pick(40, 400), steps=True, every_observer=False) + \
         los_jobs(rng, ctx.pick(4, 30), steps=True, every_observer=True, sizes=[(3, 3), (4, 5), (5, 5)])
     results, errors = {}, {}
@@ -437,10 +439,12 @@ def run(ctx):
 
     threads = {
         "compiled": bg("compiled", lambda: core.run_jobs("view_worker", table_jobs + comp_jobs,
-                                                         nproc=ctx.pick(4, 10))),
-        "tree": bg("tree", lambda: core.run_jobs("viewtree_worker", tree_jobs, nproc=ctx.pick(3, 8))),
+                                                         nproc=ctx.pick(5, 10), timeout=ctx.pick(1200, 6000))),
+        "tree": bg("tree", lambda: core.run_jobs("viewtree_worker", tree_jobs, nproc=ctx.pick(3, 8),
+                                                 timeout=ctx.pick(900, 3000))),
         "interp": bg("interp", lambda: core.run_jobs("view_worker", interp_jobs, nproc=ctx.pick(6, 12),
-                                                     env={"NUMBA_DISABLE_JIT": "1"})),
+                                                     env={"NUMBA_DISABLE_JIT": "1"},
+                                                     timeout=ctx.pick(900, 3000))),
     }
     try:
         run_checks(ctx, rng, thorough, table_jobs, tree_jobs, wait)
